@@ -7,17 +7,20 @@
                    errs (response paths that must carry exactly one error when executed)]                                  *)
 EXTENDS Naturals, Sequences, FiniteSets, TLC, Json
 Docs == [
-  anon      |-> [parses |-> TRUE,  valid |-> TRUE,  ops |-> {""},       needs |-> "",  errs |-> {}],
-  namedA    |-> [parses |-> TRUE,  valid |-> TRUE,  ops |-> {"A"},      needs |-> "",  errs |-> {}],
-  twoOps    |-> [parses |-> TRUE,  valid |-> TRUE,  ops |-> {"A", "B"}, needs |-> "",  errs |-> {}],
-  needsVar  |-> [parses |-> TRUE,  valid |-> TRUE,  ops |-> {"A"},      needs |-> "v", errs |-> {}],
-  syntaxErr |-> [parses |-> FALSE, valid |-> FALSE, ops |-> {},         needs |-> "",  errs |-> {}],
-  syntaxEsc |-> [parses |-> FALSE, valid |-> FALSE, ops |-> {},         needs |-> "",  errs |-> {}],
-  invalid   |-> [parses |-> TRUE,  valid |-> FALSE, ops |-> {""},       needs |-> "",  errs |-> {}],
-  invalidCR |-> [parses |-> TRUE,  valid |-> FALSE, ops |-> {""},       needs |-> "",  errs |-> {}],
-  failing   |-> [parses |-> TRUE,  valid |-> TRUE,  ops |-> {""},       needs |-> "",  errs |-> {"nn", "err", "items/0/nnitem", "items/2/nnitem", "items/1/erritem"}],
-  listArgs  |-> [parses |-> TRUE,  valid |-> TRUE,  ops |-> {"A"},      needs |-> "",  errs |-> {}],   \* execution-time argument coercion under a list: only the generic clauses apply
-  floats    |-> [parses |-> TRUE,  valid |-> TRUE,  ops |-> {""},       needs |-> "",  errs |-> {}]
+  anon      |-> [parses |-> TRUE,  valid |-> TRUE,  ops |-> {""},       needs |-> "",  errs |-> {}, sub |-> FALSE],
+  namedA    |-> [parses |-> TRUE,  valid |-> TRUE,  ops |-> {"A"},      needs |-> "",  errs |-> {}, sub |-> FALSE],
+  twoOps    |-> [parses |-> TRUE,  valid |-> TRUE,  ops |-> {"A", "B"}, needs |-> "",  errs |-> {}, sub |-> FALSE],
+  needsVar  |-> [parses |-> TRUE,  valid |-> TRUE,  ops |-> {"A"},      needs |-> "v", errs |-> {}, sub |-> FALSE],
+  syntaxErr |-> [parses |-> FALSE, valid |-> FALSE, ops |-> {},         needs |-> "",  errs |-> {}, sub |-> FALSE],
+  syntaxEsc |-> [parses |-> FALSE, valid |-> FALSE, ops |-> {},         needs |-> "",  errs |-> {}, sub |-> FALSE],
+  invalid   |-> [parses |-> TRUE,  valid |-> FALSE, ops |-> {""},       needs |-> "",  errs |-> {}, sub |-> FALSE],
+  invalidCR |-> [parses |-> TRUE,  valid |-> FALSE, ops |-> {""},       needs |-> "",  errs |-> {}, sub |-> FALSE],
+  failing   |-> [parses |-> TRUE,  valid |-> TRUE,  ops |-> {""},       needs |-> "",  errs |-> {"nn", "err", "items/0/nnitem", "items/2/nnitem", "items/1/erritem"}, sub |-> FALSE],
+  listArgs  |-> [parses |-> TRUE,  valid |-> TRUE,  ops |-> {"A"},      needs |-> "",  errs |-> {}, sub |-> FALSE],   \* execution-time argument coercion under a list: only the generic clauses apply
+  floats    |-> [parses |-> TRUE,  valid |-> TRUE,  ops |-> {""},       needs |-> "",  errs |-> {}, sub |-> FALSE],
+  \* a SUBSCRIPTION operation submitted to the query entry points: they cannot execute it; the outcome is a response with an
+  \* error (class "noop": no operation this entry point can run), never an exception
+  subscr    |-> [parses |-> TRUE,  valid |-> TRUE,  ops |-> {"S"},      needs |-> "",  errs |-> {}, sub |-> TRUE]
 ]
 DocIds == DOMAIN Docs
 OpNames == {"", "A", "B", "X"}          \* "" = no operation name supplied
@@ -35,6 +38,7 @@ Outcome == IF ~D.parses THEN "syntax"
            ELSE IF ~D.valid THEN "invalid"
            ELSE IF Selected = "none" THEN "noop"
            ELSE IF D.needs # "" /\ vars # "ok" THEN "badvars"
+           ELSE IF D.sub THEN "noop"
            ELSE "executed"
 Out == PrintT("REQ " \o ToJson([doc |-> doc, opname |-> opname, vars |-> vars, outcome |-> Outcome,
                                 errs |-> (IF Outcome = "executed" THEN D.errs ELSE {})]))
